@@ -9,7 +9,7 @@ CHECKS = {
         category="exploration",
         text="Hypothesis-generated molecules / ensembles (all elements, every enum member, nested attributes incl. bytes, numpy arrays and int keys, NaN/inf "
              "coordinates, 0 atoms, 0 conformers) are stored in fresh MoleculeLibrary / ConformerLibrary files with four buffer sizes and read back in-session, "
-             "in a later session and through a new handle; an independent field-by-field snapshot decides equality at float32 precision. Legacy (v1) files are "
+             "in a later session and through a new handle; optionally the same objects are then edited in place and stored again under new keys (old keys keep the old state), and molecules are also stored as a float32-coordinate subclass; an independent field-by-field snapshot decides equality at float32 precision. Legacy (v1) files are "
              "additionally produced by the harness' own encoder and read through the library. A round-trip oracle over generated inputs is exactly what the "
              "input-quantified statement needs.",
         design_ref="DESIGN.md section 5, C01",
@@ -30,9 +30,9 @@ CHECKS = {
     "C06": dict(
         category="exploration",
         text="Generated sources (nested mutable attributes, hydrogen hints, partial charges, 0-3 conformers) realised as each of the seven classes, copied by "
-             "every route (copy constructors same/wider/narrower, pickle, deepcopy, concatenate, |), then a generated mutation script is run on one side: "
+             "every route (copy constructors same/wider/narrower, pickle, deepcopy, concatenate, |, join at attachment points), then a generated mutation script is run on one side: "
              "snapshot of the other side must not change, no ndarray memory and no attribute container is shared (identity walk), the copy equals the source "
-             "on the fields of the route, parents and indices are right on both. join's independence is checked in C12.",
+             "on the fields of the route, parents and indices are right on both; after an edit of the source a second copy by the same route must show the edited state. join's geometry is C12's.",
         design_ref="DESIGN.md section 5, C06",
         note="Cross-class construction compared on common fields; ConformerEnsemble(Molecule) coordinates left to C14; partial charges of a concatenation not asserted.",
         technique="metamorphic / differential property testing: snapshot-before vs snapshot-after under generated mutation scripts, identity walk for sharing",
@@ -50,7 +50,7 @@ CHECKS = {
     "C08": dict(
         category="exploration",
         text="Round-trip legs over generated geometries, 1-5 frame ensembles and multi-molecule xyz texts (consecutive frames of equal size and different elements) through every xyz loader entry point (count, order, elements, coordinates at "
-             "the written precision, second write identical); metamorphic unit leg: the same Angstrom geometry expressed in each DistanceUnit member with the "
+             "the written precision incl. the dump_xyz(fmt=...) option with 3-12 decimals and scientific formats, second write identical, second write after an in-place edit follows the edit); metamorphic unit leg: the same Angstrom geometry expressed in each DistanceUnit member with the "
              "physical factor held by the harness (CODATA), read with source_units through xyz and mol2 single / load_all / ensemble loaders, pairwise distances "
              "compared with the Angstrom original.",
         design_ref="DESIGN.md section 5, C08",
@@ -61,7 +61,7 @@ CHECKS = {
         category="exploration",
         text="The configuration matrix {load, loads, load_all, loads_all, dump, dumps} x formats {xyz, mol2, cdxml, obabel-only, nonsense} x source/target kind "
              "{str path, Path, string, open stream} x fmt {explicit, from suffix} x otype {'molecule','ensemble', Structure, Molecule, ConformerEnsemble} x name {given, not} "
-             "x mode {a, w} is enumerated completely on bundled files and sampled on generated single / multi-frame inputs; a history leg re-uses one path with new contents (load, rewrite, load again). Differential oracle: same type and snapshot as the "
+             "x mode {a, w} x writer options {none, write_header, unknown option} x cdxml retrieval key {none, first / last label, unknown label} is enumerated completely on bundled files and sampled on generated single / multi-frame inputs; a history leg re-uses one path with new contents (load, rewrite, load again). Differential oracle: same type and snapshot as the "
              "class method, list where promised, name honoured, text in the caller's stream which stays open, no leaked descriptor, ValueError for unsupported formats.",
         design_ref="DESIGN.md section 5, C09",
         note="openbabel cells cannot run (skipped, counted); cdxml compared on constitution only; loads_all for ensembles has no class-level counterpart.",
@@ -81,7 +81,7 @@ CHECKS = {
     "C11": dict(
         category="exploration",
         text="Six generated-input legs: rotation_matrix_from_vectors (general, parallel, antiparallel neighbourhood eps in {0} U 1e-12..1e-3, three tol values, perturbed "
-             "np.random state) and rotation_matrix_from_axis against their algebraic definition; ten rigid-motion operations on molecules / ensembles / substructures "
+             "np.random state) and rotation_matrix_from_axis against their algebraic definition; ten rigid-motion operations on molecules / ensembles / substructures (the parent may lose or gain an atom between selection and edit) "
              "(distance matrix, signed volumes, documented effect); rotate_dihedral on every suitable bridge bond of 8 bundled files (exhaustive) and of generated graphs; "
              "align_to_ref_coords with two harness Kabsch variants (plain and internally centring, as the molli align wrappers), two index-set orders, two initial poses.",
         design_ref="DESIGN.md section 5, C11",
@@ -91,11 +91,11 @@ CHECKS = {
     "C12": dict(
         category="exploration",
         text="Constructed 3-D fragments (jittered lattice, random tree + ring closures, attachment point with any bond type, random rigid pose; also exactly parallel / "
-             "antiparallel / z-aligned attachment vectors) are joined with generated options (dist, optimize_rotation, charge incl. 0 / mult / name / bond overrides) through "
+             "antiparallel / z-aligned attachment vectors; attachment bonds of independently drawn length) are joined with generated options (dist, optimize_rotation, charge incl. 0 / mult / name / bond overrides) through "
              "Molecule.join and Structure.join, and iteratively on multi-attachment cores (all or a subset of the attachment points) exactly as molli combine does, with the real "
              "molli.scripts.combine._ml_assemble compared against the stepwise product. Oracle: atom and bond transfer field by field, new bond "
              "type, proper rigid fit of each fragment (own Kabsch, mirror detected separately), bond length, frame-free bond-direction test from both fragments, charge / "
-             "multiplicity, bit-identical coordinates under two np.random states, sources unchanged, nothing shared.",
+             "multiplicity, bit-identical coordinates under two np.random states, sources unchanged, nothing shared; a second join after in-place edits of both fragments is judged the same way.",
         design_ref="DESIGN.md section 5, C12",
         note="Rotamer about the new bond not prescribed under optimize_rotation; partial charges of the product not asserted; combine.py's loop restated (openbabel import).",
         technique="property-based testing with constructive 3-D fragment generators and an independent geometric oracle",
@@ -105,7 +105,7 @@ CHECKS = {
         text="Every labelled fragment of the 7 bundled .cdxml files (exhaustive) and of generated variants (top-level objects permuted, page translated, ids renumbered, "
              "<n> children permuted, each with its wedge<->hash mirrored twin) is parsed and compared with an independent ElementTree walk of the same file "
              "(attributed-graph isomorphism incl. isotopes, charges, radicals, attachment points, hydrogen hints, bond types, hapto expansion, nested fragments), total charge / "
-             "multiplicity, two parses under different np.random states, label -> fragment resolution, centre-level handedness inversion under mirroring, and an absolute "
+             "multiplicity, two parses under different np.random states, the same label asked again after the caller edited the first result, label -> fragment resolution, centre-level handedness inversion under mirroring, and an absolute "
              "handedness oracle computed from the drawing alone for unambiguous centres.",
         design_ref="DESIGN.md section 5, C13",
         note="Atoms bonded to hapto centres excluded from handedness; labels drawn twice are ambiguous in the file and skipped under object permutation; "
@@ -115,9 +115,9 @@ CHECKS = {
     "C14": dict(
         category="exploration",
         text="Model-based stateful testing: ensembles built through six constructor routes, then generated op lists (append of Molecule / Structure / CartesianGeometry, extend "
-             "by list / ensemble / iterator, scale, translate 1-D/2-D, rotate, writes through ens[i], five iteration patterns incl. nested / interleaved / zip, slices, "
+             "by list / ensemble / iterator, scale, translate 1-D/2-D, rotate by one matrix or by one matrix per conformer, writes through ens[i], five iteration patterns incl. nested / interleaved / zip, slices, "
              "per-conformer dumps read back, serialisation via v2 codec / pickle / library) are interpreted on the ensemble and on three numpy arrays; rectangularity and "
-             "view consistency are checked after every step.",
+             "view consistency are checked after every step, and every geometry or ensemble that was handed in must stay untouched.",
         design_ref="DESIGN.md section 5, C14",
         note="Appended geometries have the ensemble's atom count; a new conformer's weight may be any real number; ConformerEnsemble(molecule) coordinate values not asserted.",
         technique="stateful model-based testing (Hypothesis op lists) against a numpy reference model",
@@ -126,7 +126,7 @@ CHECKS = {
         category="exploration",
         text="Exhaustive leg: all labelled simple graphs on <=5 (quick) / <=6 (thorough) atoms with every start atom, every (start, neighbour) direction and every bond; random leg: "
              "generated forests with ring closures up to 40 atoms as Connectivity / Molecule / ConformerEnsemble; matching leg: patterns cut from the source (wildcard, own bond "
-             "types, absent). References written for this harness: BFS distances, low-link bridge finder (cross-checked with networkx), backtracking induced-embedding search; the "
+             "types, absent; source and pattern atoms carry unrelated atom types; bonds of every BondType member; query - in-place edit - query again). References written for this harness: BFS distances, low-link bridge finder (cross-checked with networkx), backtracking induced-embedding search; the "
              "SET of returned mappings must equal the reference set.",
         design_ref="DESIGN.md section 5, C15",
         note="No parallel bonds / self loops; _edge_match's type rules beyond the statement are only exercised where every rule is satisfied.",
@@ -138,14 +138,14 @@ CHECKS = {
              "radicals, multiple / aromatic bonds, hints, metal / halogen bystanders; random, as-built and exactly-z-aligned orientations) and every labelled fragment of the bundled "
              "CDXML files go through add_implicit_hydrogens. Oracle: before/after snapshots (atoms, bonds, coordinates, charges untouched), every new atom is a singly bonded H on a "
              "group 13-16 atom, per-centre count from the harness' own valence table or the hint, X-H distance, finite coordinates, direction away from the neighbour centroid, "
-             "idempotence on hint-free molecules. The (neighbours x hydrogens) class histogram is reported.",
+             "idempotence on hint-free molecules; molecule-level charge / multiplicity / name / attributes unchanged; the named-atoms call form touches only the named atoms. The (neighbours x hydrogens) class histogram is reported.",
         design_ref="DESIGN.md section 5, C16",
         note="Collinear neighbour pairs are not generated; direction not asserted for centres bonded to CoordinationCenter atoms (ignored by the placement code on purpose); hints <= free valence.",
         technique="property-based testing with a class-directed constructive generator and an independent valence calculation",
     ),
     "C17": dict(
         category="fault_enumeration",
-        text="Binding: ALL sequences of <=3/<=4 job accesses over three driver instances x {single, vectorised job} x {used at once, handle kept and used later} for a harness "
+        text="Binding: ALL sequences of <=3/<=4 job accesses over three driver instances x {single, vectorised job} x {used at once, handle kept and used later}, plus in-place reconfiguration of a driver, for a harness "
              "DriverBase subclass and for XTBDriver; the prepared JobInput must carry that driver's executable / nprocs / environment. Execution: generated JobInputs (1-4 sh commands, "
              "first failing command at every position, text / binary files incl. CR LF and NUL bytes, env override vs inherited, every return-file plan) run by run_local() in a forked "
              "child and by the real _molli_run; oracle from marker files written by the commands themselves: order and stop-at-first-failure, private directory under scratch with exactly "
@@ -158,7 +158,7 @@ CHECKS = {
         category="fault_enumeration",
         text="Generated histories of 2-4 real jobmap runs (every job a _molli_run launch of a /bin/sh script that reads a per-item plan - ok / fail / ok on the n-th attempt / omit "
              "the return file - and bumps a per-item execution counter) over small molecule and conformer libraries, with argument changes (new hash), pre-populated and foreign "
-             "destination keys, cache deletion / pollution with another input's output, fresh destinations on an old cache, strict and stdout-only post-processors, single and "
+             "destination keys, cache deletion / pollution with another input's output, fresh destinations on an old cache, strict and stdout-only post-processors, strict_hash on / off, job arguments by keyword or positionally, single and "
              "vectorised jobs. A model of (destination, cache, counters) predicts after every run exactly which units execute and exactly what the destination holds.",
         design_ref="DESIGN.md section 5, C18",
         note="jobmap_sge (needs qsub) and worker() are not exercised; success = all commands exit 0 and the return file exists.",
@@ -167,7 +167,7 @@ CHECKS = {
     "C19": dict(
         category="exploration",
         text="Five generated-input legs on the shipped extension and the Python descriptors (12 kernel names x float widths x five memory layouts x shapes incl. empty vs. a float64 numpy "
-             "reference; rectangular_grid lattice / spacing / containment / centring / count; nearest_atom_index with the cut-off passed, for ensembles and single geometries; prune bounds; "
+             "reference; rectangular_grid lattice / spacing / containment / centring / count; nearest_atom_index with the cut-off passed, for ensembles and single geometries (2-40 atoms), asked again after the same objects were moved in place; prune bounds likewise; grid dtype option; "
              "aso / aeif vs. the van-der-Waals-sphere definition with the float32 rounding band excluded and counted) plus a native leg: molli_xt/distance.cpp of the working tree is "
              "compiled with clang++ under ASan + UBSan + libFuzzer against a header shim standing in for pybind11, and every registered name is fuzzed with the oracle inside the target.",
         design_ref="DESIGN.md section 5, C19",
@@ -179,7 +179,7 @@ CHECKS = {
         category="exploration",
         text="Bounded-exhaustive (all op sequences up to length 4/5 over a 14-letter alphabet on two raw UKVFile handles) plus random "
              "model-based histories on raw handles and on Collection sessions with stale handles and four buffer sizes, each compared "
-             "step by step with an insertion-ordered reference map; raw histories also contain puts whose stream write fails (injected OSError). Exploration is the right level: the claim is over histories, and "
+             "step by step with an insertion-ordered reference map; raw histories also contain puts whose stream write fails (injected OSError); Collection histories contain puts inside reading() on unbuffered handles (must fail and leave the listing alone); comments / descriptor blocks with edge whitespace must be preserved. Exploration is the right level: the claim is over histories, and "
              "a reference model decides every step; no absence proof is claimed beyond the enumerated bound.",
         design_ref="DESIGN.md section 5, C02",
         note="Trusted: the reference model in vf/props/c02.py; at most one raw writer at a time; mode 'w' only creates; python file "
@@ -194,14 +194,14 @@ CHECKS = {
              "session records all-or-nothing, nothing foreign listed. Fault enumeration over crash points is exactly the property's quantifier.",
         design_ref="DESIGN.md section 5, C03",
         note="Crash model = prefix of the bytes handed to the file object in call order (no reordering below the file API); torn file header excluded; "
-             "records > 8 kB are sampled (every 16th/64th offset + all offsets near field boundaries), not exhaustive.",
+             "records > 8 kB (up to just over 1 MiB, thorough 4 MiB) are sampled (every 16th..65536th offset + all offsets near field boundaries), not exhaustive.",
         technique="exhaustive crash-point enumeration over Hypothesis-generated sessions, all-or-nothing oracle",
     ),
     "C04": dict(
         category="fault_enumeration",
         text="(a) harness-owned schedules: all sequences of <=2/<=3 sessions over 11 session kinds (8 failing, faults injected at body / encoder / flush-time "
              "backend write / end_write / end_read / begin_write / begin_read) on handles living in three processes, with a lock probe from a fresh process after every session; "
-             "(b) real 8-16 process schedules with random delays whose oracle (timestamps taken inside the protected body, hand-over after failing sessions) "
+             "(b) real 8-16 process schedules, the processes reaching the library through three spellings of its path (plain, sub/.., symlinked directory), with random delays whose oracle (timestamps taken inside the protected body, hand-over after failing sessions) "
              "cannot misfire on correct locking. Real interleavings are sampled, only session-granular schedules are exhaustive.",
         design_ref="DESIGN.md section 5, C04",
         note="Threads sharing a handle and nested same-process sessions are outside the claim; CLOCK_MONOTONIC is system-wide on Linux; fault injection by "
